@@ -315,6 +315,8 @@ def gen_conn(r, g, population, cfg):
         frames.append(d)
         datas.append(data)
     conn = {'recv': r.choice(cfg['receivers']), 'frames': frames}
+    # (no 'mutable_buf' connections: the pinned decoder is specified for
+    # bytes and refuses most frames held in a bytearray - DESIGN.md 13)
     density = r.choice(cfg['densities'])
     conn['cuts'] = pick_cuts(r, datas, density)
     conn['lat'] = [r.randint(1, 9) for _ in range(r.randint(1, 5))]
